@@ -182,6 +182,15 @@ fn now_ms() -> u64 {
 
 /// Called by properties before each execution of code under test. Never
 /// influences a scenario: it only feeds the hang watchdog.
+pub fn current_slot() -> usize {
+    WORKER_SLOT.with(|s| s.get())
+}
+
+/// A helper thread of a worker reports heartbeats in the worker's slot.
+pub fn adopt_slot(slot: usize) {
+    WORKER_SLOT.with(|s| s.set(slot));
+}
+
 pub fn heartbeat() {
     let slot = WORKER_SLOT.with(|s| s.get());
     HEARTBEATS[slot].store(now_ms(), Ordering::Relaxed);
@@ -504,14 +513,19 @@ pub fn check(prop: &dyn Property, tier: Tier) -> i32 {
             }
         });
         let (r, canon) = rerun(prop, tier, *index, &best);
-        let v = match r.violation {
-            Some(v) if v.rule == rule => v,
+        let (v, canon, used) = match r.violation {
+            Some(v) if v.rule == rule => (v, canon, used),
             _ => {
-                eprintln!(
-                    "HARNESS ERROR: minimised tape of scenario {} does not reproduce rule {}",
+                // The violation does not recur when the scenario is re-run in
+                // this process: what the code under test did depended on what
+                // this process had run before (state carried between calls).
+                // Report the original, unminimised scenario; the fresh-process
+                // replay below decides whether it stands.
+                println!(
+                    "note: scenario {} (rule {}) does not recur on in-process re-runs; reporting it unminimised",
                     index, rule
                 );
-                return 2;
+                (v0.clone(), tape0.clone(), 0)
             }
         };
         if let Some(k) = match_known(&known, prop.id(), &v) {
